@@ -307,6 +307,42 @@ def recordlayer_cases(ctx):
                             ctx.compared()
                             if m != hx(frag):
                                 ctx.disagree("stripPadMac", case, m, frag.hex())
+                # any padding length the alignment allows (incl. more than one block, which SSLv3
+                # must refuse): the record layer must agree with the plain specification
+                dl = getattr(hashlib, hname)().digest_size
+                pad_choices = sorted(set([0, 1, bs - 1, bs, bs + 1, bs + 2, 2 * bs - 1, 2 * bs, 2 * bs + 1, 3 * bs,
+                                          15, 16, 17, 31, 32, 100, 254, 255] + [rng.randrange(256) for _ in range(4)]))
+                for p in pad_choices:
+                    fl = (-(dl + p + 1)) % bs + bs * rng.randrange(0, 3)
+                    key, iv, mkey, seq = rb(klen), rb(bs), rb(20), rb(8)
+                    frag = rb(fl)
+                    body = build_body(frag, mkey, hname, seq, 23, ver, bs, padlen=p)
+                    assert len(body) % bs == 0
+                    rl = RecordLayer(None)
+                    rl.version = ver
+                    st = rl._readState
+                    mkc = cipherfactory.createAES if cname == "aes128" else cipherfactory.createTripleDES
+                    st.encContext = mkc(key, iv, ["python"])
+                    enc = mkc(key, iv, ["python"])
+                    st.macContext = make_mac(mkey, hname, ver)[0]
+                    st.seqnum = int.from_bytes(seq, "big")
+                    wire = enc.encrypt(bytearray((rb(bs) if ver >= (3, 2) else b"") + body))
+                    try:
+                        res = ("ok", bytes(rl._decryptThenMAC(23, bytearray(wire))))
+                    except TLSBadRecordMAC:
+                        res = ("bad_record_mac", None)
+                    except Exception as e:
+                        res = ("exception:" + type(e).__name__, None)
+                    want = ("ok", frag) if spec_well_formed(body, mkey, hname, seq, 23, ver, bs) else ("bad_record_mac", None)
+                    ctx.case(key=("rl-anypad", ver, hname, cname, p, fl), sample=None)
+                    ctx.count("recordlayer-anypad:" + want[0])
+                    if res != want:
+                        ctx.violation("c12:recordlayer-anypad-" + res[0],
+                                      "_decryptThenMAC gave %s for padding length %d (block size %d, version %s), specification says %s"
+                                      % (res[0], p, bs, ver, want[0]),
+                                      {"stage": "recordlayer-anypad", "ver": list(ver), "hash": hname, "cipher": cname,
+                                       "frag": frag.hex(), "body": body.hex(), "mkey": mkey.hex(), "seq": seq.hex(),
+                                       "key": key.hex(), "iv": iv.hex(), "got": res, "want": want})
                 # sender side addPadding
                 for n in ([0, 1, 7, 8, 15, 16, 17, 255, 256] if not ctx.thorough() else range(0, 520)):
                     rl = RecordLayer(None)
